@@ -84,7 +84,7 @@ def gen_cases(tier, seed):
         for tb in TYPES:
             for a in (3, 9, -7, 5, 100, 1):
                 for b in (4, 8, -4, 16):
-                    for op in OPS:
+                    for op in OPS + ["/"]:
                         for t in TYPES:
                             cases.append({"kind": "arith", "ta": ta, "a": a, "tb": tb, "b": b, "op": op, "tt": t, "form": rng.choice(["plain", "paren"])})
     # random values inside the ranges
